@@ -1739,3 +1739,89 @@ func nonzeroTerms(l core.Linear) []string {
 	}
 	return out
 }
+
+// ---- C06.R13 the stream window is regrown from its real length ----
+
+// (*Stream).readBuf makes room for the next read. The window s.buf does not only grow there: the string scanner
+// rewrites invalid bytes in place (one byte becomes the three bytes of U+FFFD, through append), so s.buf can be
+// longer than the size readBuf keeps in s.bufSize, and it can be full although no read filled it. A new window
+// made with a size that is not tied to len(s.buf) truncates the old one in the copy, and a window without free
+// space makes read index position -1. Two facts are required: the size handed to make is raised to a bound
+// computed from len(s.buf) before the window is reallocated, and the decision to grow looks at the free space
+// (len(s.buf) against s.length), not only at the filled flag.
+func c06r13(rc *core.RC) {
+	p := rc.P
+	fd := p.Func("decoder", "Stream.readBuf")
+	key := "decoder.(*Stream).readBuf"
+	if fd == nil || fd.Body == nil {
+		rc.Unknown(key+"/window-regrown-from-its-length", token.NoPos, "readBuf not found")
+		return
+	}
+	rc.Touch("decoder.(*Stream).readBuf")
+	info := p.Info(fd)
+	isField := func(e ast.Expr, name string) bool {
+		f := core.FieldOf(info, e)
+		return f != nil && f.Name() == name
+	}
+	mentionsLenBuf := func(n ast.Node) bool {
+		found := false
+		ast.Inspect(n, func(m ast.Node) bool {
+			if c, ok := m.(*ast.CallExpr); ok && core.IsBuiltin(info, c, "len") && len(c.Args) == 1 && isField(c.Args[0], "buf") {
+				found = true
+			}
+			return true
+		})
+		return found
+	}
+	// the reallocation
+	var mk *ast.CallExpr
+	var growIf *ast.IfStmt
+	ast.Inspect(fd.Body, func(m ast.Node) bool {
+		if ifs, ok := m.(*ast.IfStmt); ok && growIf == nil {
+			ast.Inspect(ifs.Body, func(k ast.Node) bool {
+				if c, isCall := k.(*ast.CallExpr); isCall && core.IsBuiltin(info, c, "make") && len(c.Args) >= 2 {
+					mk = c
+					growIf = ifs
+				}
+				return true
+			})
+		}
+		return true
+	})
+	if mk == nil {
+		rc.Unknown(key+"/window-regrown-from-its-length", fd.Pos(), "no reallocation of the window (make) under a condition found")
+		return
+	}
+	// (1) the size: a variable or field raised to a bound derived from len(s.buf) inside the growing branch, or an expression of len(s.buf)
+	sized := mentionsLenBuf(mk.Args[1])
+	if !sized {
+		sizeSrc := core.Src(p.Fset, mk.Args[1])
+		ast.Inspect(growIf.Body, func(m ast.Node) bool {
+			inner, ok := m.(*ast.IfStmt)
+			if !ok || inner == growIf {
+				return true
+			}
+			// if size < need { size = need } with need derived from len(s.buf)
+			raises := false
+			for _, st := range inner.Body.List {
+				if as, isAs := st.(*ast.AssignStmt); isAs && len(as.Lhs) == 1 && core.Src(p.Fset, as.Lhs[0]) == sizeSrc {
+					raises = true
+				}
+			}
+			if !raises {
+				return true
+			}
+			if mentionsLenBuf(inner) {
+				sized = true
+			}
+			if as, isAs := inner.Init.(*ast.AssignStmt); isAs && mentionsLenBuf(as) {
+				sized = true
+			}
+			return true
+		})
+	}
+	rc.Check(sized, key+"/window-regrown-from-its-length", mk.Pos(), "the size of the new window (%s) is raised to a bound computed from len(s.buf) before the old window is copied into it: the window also grows in place when invalid bytes are replaced by U+FFFD, and a new window shorter than the old one truncates it (a string of 600 bytes 0xff through a Decoder: slice bounds out of range)", core.Src(p.Fset, mk.Args[1]))
+	// (2) the decision to grow looks at the free space
+	free := mentionsLenBuf(growIf.Cond)
+	rc.Check(free, key+"/grows-when-full", growIf.Pos(), "the window is regrown when it has no free space left (the condition compares len(s.buf) with the data length), not only after a read that filled it: in-place growth can fill it too, and read would index position -1 of an empty rest")
+}
